@@ -278,8 +278,11 @@ def blocked(T, group):
         return 'F-MLPROP'
     if ml and group in ('default', 'index_name') and F.is_open('F-MLDEFAULT'):
         return 'F-MLDEFAULT'
-    if "'''" in T and not (ml and group == 'block_notes') and F.is_open('F-TRIPLE'):
-        return 'F-TRIPLE'
+    if "'''" in T and F.is_open('F-TRIPLE'):
+        # single-line literals always; triple-quoted ones when the run of quotes touches the end of the text
+        # (only the first quote of each ''' is escaped, the remaining two merge with the closing quotes)
+        if not (ml and group == 'block_notes') or T.endswith("'''"):
+            return 'F-TRIPLE'
     if group == 'default' and T.lower() in ('true', 'false', 'null') and F.is_open('F-STRBOOL'):
         return 'F-STRBOOL'
     if group == 'default' and T == '' and F.is_open('F-FALSY'):
